@@ -186,4 +186,11 @@ void *_dispatch_wait_for_enqueuer(void **ptr);
 #endif
 #endif // HAVE_MACH
 
+#if DISPATCH_VERIF
+/* verification seam: busy-wait pauses yield to the deterministic scheduler */
+extern void _dispatch_verif_pause(void);
+#undef dispatch_hardware_pause
+#define dispatch_hardware_pause() _dispatch_verif_pause()
+#endif // DISPATCH_VERIF
+
 #endif // __DISPATCH_SHIMS_YIELD__
